@@ -144,6 +144,12 @@ def handleRender (op : String) (j : Json) : Option Json :=
       let asts := lineAsts (renderTop c (getBoolD j "asBatch") t)
       let r := Spec.Render.textDenotes c.isP (getChars j "impl") asts
       some (obj [("holds", Json.bool r)])
+  | "render.eval" =>
+    match topOf (getObj j "case") with
+    | none => some (errJ "bad-op")
+    | some t =>
+      let r := Spec.Render.evalTop (ctxOf j) (getBoolD j "asBatch") (getChars j "impl") t
+      some (obj [("holds", Json.bool r.1), ("checked", r.2)])
   | "ast.parse" =>
     match parse (getChars j "text") with
     | some e => some (obj [("ok", charsJ (pp (isPOf j) e))])
